@@ -389,6 +389,30 @@ pub fn s_conn(cx: &mut Ctx) {
                 cx.ex.fail(&["C03"], m);
             }
         }
+        // every combination of operand kinds for every overloaded operator: a bare handle, a negated
+        // handle, a term expression, a compound expression, a negated compound (an explicit Not node), a
+        // doubly negated compound — on either side
+        {
+            let kinds = |a: usize, b: usize| -> Vec<String> {
+                vec![
+                    format!("h{}", a),
+                    format!("- h{}", a),
+                    format!("t h{}", a),
+                    format!("( h{} * h{} )", a, b),
+                    format!("- ( h{} + h{} )", a, b),
+                    format!("- - ( h{} ^ h{} )", a, b),
+                    format!("- t h{}", b),
+                ]
+            };
+            for op in ["*", "+", "^"] {
+                let (a, b, c, d) = (*cx.rng.pick(&hs), *cx.rng.pick(&hs), *cx.rng.pick(&hs), *cx.rng.pick(&hs));
+                for l in kinds(a, b) {
+                    for r in kinds(c, d) {
+                        cx_op!(cx, format!("expr {} {} {}", l, op, r));
+                    }
+                }
+            }
+        }
         // every shape of up to three stacked negations (raw / simplifying) over a term and over a product
         for pat in 0..8u32 {
             for base in ["T {a}", "A T {a} T {b}", "o T {a} N T {b}"] {
@@ -649,6 +673,122 @@ pub fn s_split(cx: &mut Ctx) {
                 cx.op("digest".into());
             }
         }
+        cx.end();
+    }
+    // "combs": the same sub-diagram h as the else-child (or then-child) at several levels of one argument,
+    // g = node(v1, h, node(v2, h, x)), with the other arguments' variables above, between and below
+    let combs = if cx.thorough { 24 } else { 4 };
+    for ci in 0..combs {
+        // (a structural scan after every operation: a result that is the right function in the wrong
+        // shape — unordered, not canonical — is charged to the operation that produced it)
+        cx_begin!(cx, 6, format!("new 11 {} {}", 1 + ci % 4, 3 + ci % 6), 1);
+        let mut vs = vec![0usize];
+        for v in 1..=6 {
+            vs.push(cx_op!(cx, format!("var {}", v)));
+        }
+        let nv6 = cx_op!(cx, format!("not {}", vs[6]));
+        let a56 = cx_op!(cx, format!("and {} {}", vs[5], vs[6]));
+        let o56 = cx_op!(cx, format!("or {} {}", vs[5], vs[6]));
+        let hpool = [vs[6], nv6, a56, o56, vs[5]];
+        let xpool = [0usize, 1, vs[6], nv6, vs[5]];
+        // comb levels: increasing variables among 1..=4
+        let levelsets: [&[u32]; 8] = [&[1, 3], &[1, 2], &[2, 4], &[1, 4], &[1, 2, 3], &[1, 3, 4], &[2, 3, 4], &[1, 2, 4]];
+        let mut gs: Vec<(usize, usize)> = vec![]; // (comb, its h)
+        for (li, lv) in levelsets.iter().enumerate() {
+            for (hi, &h) in hpool.iter().enumerate() {
+                if (li + hi + ci) % 2 == 1 && !cx.thorough {
+                    continue;
+                }
+                for &x in &xpool {
+                    if x == h {
+                        continue;
+                    }
+                    for side in 0..2 {
+                        let mut cur = x;
+                        for &v in lv.iter().rev() {
+                            cur = if side == 0 { cx_op!(cx, format!("node {} {} {}", v, h, cur)) } else { cx_op!(cx, format!("node {} {} {}", v, cur, h)) };
+                        }
+                        if cx.reply().starts_with("r ") {
+                            gs.push((cur, h));
+                        }
+                    }
+                }
+            }
+        }
+        // the third argument: every function of two of the variables 1..4 (16 per pair, a few pairs)
+        let mut fs: Vec<usize> = vec![];
+        for (p, q) in [(2usize, 3usize), (1, 2), (3, 4), (2, 4)] {
+            let np = cx_op!(cx, format!("not {}", vs[p]));
+            for &l in &[vs[p], np] {
+                fs.push(cx_op!(cx, format!("and {} {}", l, vs[q])));
+                fs.push(cx_op!(cx, format!("or {} {}", l, vs[q])));
+                fs.push(cx_op!(cx, format!("xor {} {}", l, vs[q])));
+            }
+            fs.push(vs[p]);
+        }
+        let mut k = 0u64;
+        for &(g, h) in &gs {
+            for &f in &fs {
+                k += 1;
+                if !cx.thorough && (k + ci as u64) % 3 != 0 {
+                    continue;
+                }
+                cx_op!(cx, format!("ite {} {} {}", f, g, h));
+                cx_op!(cx, format!("ite {} {} {}", f, h, g));
+                cx_op!(cx, format!("ite {} {} {}", g, f, h));
+                if k % 5 == 0 {
+                    cx_op!(cx, format!("itec {} {} {}", f, g, h));
+                    cx_op!(cx, format!("constrain {} {}", g, f));
+                    cx_op!(cx, format!("restrict {} {}", g, f));
+                }
+            }
+            if k % 64 == 0 {
+                cx.op("digest".into());
+            }
+        }
+        cx.end();
+    }
+    // ite_constant / is_implies on arguments whose un-memoised walk is exponential although the
+    // diagrams are tiny (parity over n variables): the answer is compared with the ITE itself
+    for (pi, &n) in (if cx.thorough { vec![8usize, 12, 16, 18, 20, 21, 22] } else { vec![10, 16, 21] }).iter().enumerate() {
+        cx.ex.begin_case();
+        cx.ex.tt = None;
+        cx.ex.scan_every = 1_000_000_000;
+        cx_op!(cx, format!("new 12 6 {}", 6 + pi % 3));
+        let mut vs = vec![0usize];
+        for v in 1..=(n + 2) {
+            vs.push(cx_op!(cx, format!("var {}", v)));
+        }
+        let mut p = vs[n];
+        for v in (1..n).rev() {
+            p = cx_op!(cx, format!("xor {} {}", vs[v], p));
+        }
+        let (z, w) = (vs[n + 1], vs[n + 2]);
+        let f = cx_op!(cx, format!("and {} {}", p, z));
+        let g = cx_op!(cx, format!("or {} {}", p, w));
+        let np = cx_op!(cx, format!("not {}", p));
+        // collections in between so that the operation cache does not answer for the probe
+        let roots = format!("gc {} {} {} {} {} {}", f, g, p, np, z, w);
+        let mut ask = |cx: &mut Ctx, a: usize, b: usize, c: usize| {
+            cx.op(roots.clone());
+            cx_op!(cx, format!("itec {} {} {}", a, b, c));
+            let said = cx.reply().to_string();
+            cx.op(roots.clone());
+            cx_op!(cx, format!("implies {} {}", a, b));
+            cx.op(roots.clone());
+            let r = cx_op!(cx, format!("ite {} {} {}", a, b, c));
+            let want = if cx.ex.env[r] == cx.ex.env[0] { "some1" } else if cx.ex.env[r] == cx.ex.env[1] { "some0" } else { "none" };
+            if !said.starts_with("panic") && said != want {
+                let m = format!("ite_constant says {}, the ITE itself is {}", said, crate::exec::show_ref(cx.ex.env[r]));
+                cx.ex.fail(&["C12"], m);
+            }
+        };
+        ask(cx, f, g, 0);  // f -> g holds
+        ask(cx, g, f, 0);
+        ask(cx, f, g, 1);
+        ask(cx, p, g, np); // ITE(p, g, ~p) = 1
+        ask(cx, p, f, np);
+        ask(cx, np, f, 1);
         cx.end();
     }
     // 2 + 2 + 2 for ITE
@@ -1518,7 +1658,40 @@ pub fn s_deep(cx: &mut Ctx) {
         }
         cx.end();
     }
-    cx.notes.push(format!("{} chain lengths up to 1300", lens.len()));
+    // diagrams deeper than 2^16 and 2^17 levels, built bottom-up with mk_node (the recursive operations
+    // would exhaust the native stack): x1 ∧ … ∧ xL ∧ (x(L+1) ∨ x(L+2)) and a variant with branching
+    // nodes spread along the chain; only the iterative queries are asked
+    let depths: &[usize] = if cx.thorough { &[65534, 65535, 65536, 65537, 70000, 131073] } else { &[65537] };
+    for (di, &l) in depths.iter().enumerate() {
+        cx.ex.begin_case();
+        cx.ex.tt = None;
+        cx.ex.scan_every = 1_000_000_000;
+        cx_op!(cx, format!("new {} 12 6", if l > 100_000 { 19 } else { 18 }));
+        let a = cx_op!(cx, format!("var {}", l + 2));
+        let mut prev = cx_op!(cx, format!("node {} {} 0", l + 1, a)); // x(L+1) ∨ x(L+2)
+        for v in (1..=l).rev() {
+            // mostly "x_v ∧ rest"; every 9973rd level (variant 1) "x_v ∨ rest" or "¬x_v ∧ rest"
+            let line = if di % 2 == 1 && v % 9973 == 0 {
+                format!("node {} {} 0", v, prev)
+            } else if di % 2 == 1 && v % 7919 == 0 {
+                format!("node {} {} 1", v, prev)
+            } else {
+                format!("node {} 1 {}", v, prev)
+            };
+            prev = cx.op(line);
+        }
+        cx_op!(cx, format!("size {}", prev));
+        cx_op!(cx, format!("paths {}", prev));
+        cx_op!(cx, format!("pathsi.open {}", prev));
+        cx.op("pathsi.next".into());
+        cx.op("pathsi.next".into());
+        cx.op("pathsi.next".into());
+        cx.op("pathsi.close".into());
+        cx_op!(cx, format!("desc {}", prev));
+        cx.op("digest".into());
+        cx.end();
+    }
+    cx.notes.push(format!("{} chain lengths up to 1300; bottom-up chains of {:?} levels", lens.len(), depths));
 }
 
 /// boundary values of the variable type (`u32`; literals are `i32`)
